@@ -73,6 +73,18 @@ pub struct CacheCase {
     pub rq: RQ,
     pub writers: Vec<WS>,
     pub ops: Vec<Op>,
+    /// C19 writer side: resource limits of a KEEP_ALL writer (only the Write ops of `ops` are used)
+    #[serde(default)]
+    pub wlim: Option<WLim>,
+}
+
+#[derive(Clone, Debug, Serialize, Deserialize)]
+pub struct WLim {
+    pub max_samples: Option<u8>,
+    pub max_instances: Option<u8>,
+    pub mspi: Option<u8>,
+    /// reader partitioned during the writes (nothing is acknowledged) or reachable
+    pub partitioned: bool,
 }
 
 // ------------------------------------------------------------------------------------------
@@ -145,10 +157,11 @@ pub fn strategy(prop: &'static str, thorough: bool) -> BoxedStrategy<CacheCase> 
                     ];
                     (Just(rq), Just(ws1(nw)), prop::collection::vec(op, 5..max_ops))
                 })
-                .prop_map(move |(rq, writers, ops)| CacheCase { prop: prop.into(), rq, writers, ops })
+                .prop_map(move |(rq, writers, ops)| CacheCase { prop: prop.into(), rq, writers, ops, wlim: None })
                 .boxed()
         }
         "C19" => {
+            let drq = default_rq.clone();
             let rq = (prop::option::weighted(0.4, 1u8..4), prop::option::weighted(0.6, 1u8..5), prop::option::weighted(0.5, 1u8..4), prop::option::weighted(0.5, 1u8..4))
                 .prop_map(move |(kl, ms, mi, mspi)| {
                     let mut rq = default_rq.clone();
@@ -168,7 +181,7 @@ pub fn strategy(prop: &'static str, thorough: bool) -> BoxedStrategy<CacheCase> 
                     }
                     rq
                 });
-            (rq, 1usize..3)
+            let reader_side = (rq, 1usize..3)
                 .prop_flat_map(move |(rq, nw)| {
                     let op = prop_oneof![
                         6 => write_op(nw as u8, 5, false),
@@ -176,8 +189,29 @@ pub fn strategy(prop: &'static str, thorough: bool) -> BoxedStrategy<CacheCase> 
                     ];
                     (Just(rq), Just(ws1(nw)), prop::collection::vec(op, 5..max_ops))
                 })
-                .prop_map(move |(rq, writers, ops)| CacheCase { prop: prop.into(), rq, writers, ops })
-                .boxed()
+                .prop_map(move |(rq, writers, ops)| CacheCase { prop: prop.into(), rq, writers, ops, wlim: None });
+            let writer_side = (
+                prop::option::weighted(0.6, 1u8..6),
+                prop::option::weighted(0.5, 1u8..4),
+                prop::option::weighted(0.5, 1u8..4),
+                any::<bool>(),
+                prop::collection::vec(write_op(1, 5, false), 3..20),
+            )
+                .prop_map(move |(ms, mi, mspi, partitioned, ops)| {
+                    // consistency: max_samples limited => max_samples_per_instance limited and <= max_samples
+                    let (ms, mspi) = match (ms, mspi) {
+                        (Some(s), m) => (Some(s), Some(m.unwrap_or(s).min(s))),
+                        (None, m) => (None, m),
+                    };
+                    CacheCase {
+                        prop: prop.into(),
+                        rq: drq.clone(),
+                        writers: vec![WS { strength: 0, autodispose: true }],
+                        ops,
+                        wlim: Some(WLim { max_samples: ms, max_instances: mi, mspi, partitioned }),
+                    }
+                });
+            prop_oneof![3 => reader_side, 1 => writer_side].boxed()
         }
         "C21" => {
             let mut rq = default_rq.clone();
@@ -190,7 +224,7 @@ pub fn strategy(prop: &'static str, thorough: bool) -> BoxedStrategy<CacheCase> 
                     ];
                     (Just(rq.clone()), Just(ws1(nw)), prop::collection::vec(op, 4..max_ops))
                 })
-                .prop_map(move |(rq, writers, ops)| CacheCase { prop: prop.into(), rq, writers, ops })
+                .prop_map(move |(rq, writers, ops)| CacheCase { prop: prop.into(), rq, writers, ops, wlim: None })
                 .boxed()
         }
         "C25" => {
@@ -206,7 +240,7 @@ pub fn strategy(prop: &'static str, thorough: bool) -> BoxedStrategy<CacheCase> 
                     ];
                     (Just(rq), Just(ws1(nw)), prop::collection::vec(op, 4..max_ops))
                 })
-                .prop_map(move |(rq, writers, ops)| CacheCase { prop: prop.into(), rq, writers, ops })
+                .prop_map(move |(rq, writers, ops)| CacheCase { prop: prop.into(), rq, writers, ops, wlim: None })
                 .boxed()
         }
         "C24" => {
@@ -225,7 +259,7 @@ pub fn strategy(prop: &'static str, thorough: bool) -> BoxedStrategy<CacheCase> 
                     ];
                     (Just(rq.clone()), Just(ws), prop::collection::vec(op, 5..max_ops))
                 })
-                .prop_map(move |(rq, writers, ops)| CacheCase { prop: prop.into(), rq, writers, ops })
+                .prop_map(move |(rq, writers, ops)| CacheCase { prop: prop.into(), rq, writers, ops, wlim: None })
                 .boxed()
         }
         // C20, C22, C23: lifecycle ops; C20/C23 with generated masks
@@ -248,7 +282,7 @@ pub fn strategy(prop: &'static str, thorough: bool) -> BoxedStrategy<CacheCase> 
                 ];
                 (Just(default_rq.clone()), Just(ws), prop::collection::vec(op, 5..max_ops))
             })
-            .prop_map(move |(rq, writers, ops)| CacheCase { prop: prop.into(), rq, writers, ops })
+            .prop_map(move |(rq, writers, ops)| CacheCase { prop: prop.into(), rq, writers, ops, wlim: None })
             .boxed(),
     }
 }
@@ -1308,6 +1342,9 @@ fn compare_read(
 }
 
 pub fn eval(case: &CacheCase) -> CaseResult {
+    if case.wlim.is_some() {
+        return eval_writer_limits(case);
+    }
     let mut res = CaseResult::default();
     let prop = case.prop.clone();
     match exec::run(scenario(case.clone())) {
@@ -1431,7 +1468,7 @@ pub fn main(ctx: &Ctx) {
     let thorough = ctx.tier == vcore::Tier::Thorough;
     let rule: &'static str = match prop {
         "C18" => "histories of 5-40(120) ops: writes from 1-2 writers over 3 instances to a reader with KEEP_LAST d in 1..4 (max_samples_per_instance in {d, d+1, unlimited}) or KEEP_ALL, interleaved read/take(ANY); after every op the stored set per instance is compared with the model (last d received) and sample_rejected must stay 0; non-trivial = depth == max_samples_per_instance or more than 8 ops executed; distinct = hash of the case",
-        "C19" => "histories of writes over 5 instances to a reader with small max_samples/max_instances/max_samples_per_instance (1..4, consistent with history), interleaved read/take(ANY); model predicts exactly which arrivals are rejected, count, reason set and instance; non-trivial = at least one rejection due per the model; distinct = hash of the case",
+        "C19" => "reader side (3/4 of the cases): histories of writes over 5 instances to a reader with small max_samples/max_instances/max_samples_per_instance (1..4, consistent with history), interleaved read/take(ANY); model predicts exactly which arrivals are rejected, count, reason set and instance. Writer side (1/4): KEEP_ALL reliable writer with small limits, 3-19 writes over 5 instances while the matched reader is partitioned (nothing acknowledged: exact accept/refuse pattern, refusal must be OutOfResources) or reachable (refusals only OutOfResources; refused samples never delivered, accepted ones all delivered after healing); non-trivial = at least one rejection/refusal due; distinct = hash of the case",
         "C20" => "histories of write/dispose/unregister from 1-2 writers over 3 instances and read/take/read_instance/take_instance with generated sample/view/instance masks and max_samples; result compared with model (matching set, per-instance storage order, grouping, sample_state marking, take removal, ranks, NoData, timestamps, handles); non-trivial = a masked or max_samples-limited read occurred; distinct = hash of the case",
         "C21" => "BY_SOURCE_TIMESTAMP reader, 1-2 writers, writes with explicit timestamps (random, equal, ascending, descending), read/take(ANY); per instance the presented order must be non-decreasing source timestamp (ties in arrival order); non-trivial = at least 4 ops executed; distinct = hash of the case",
         "C22" => "histories of write/dispose/unregister (autodispose on/off) from 1-2 writers over 3 instances with read/take(ANY) in between; instance_state, view_state and generation counts of every returned sample compared with the DDS life-cycle model; non-trivial = a dispose or unregister was executed; distinct = hash of the case",
@@ -1459,4 +1496,165 @@ pub fn main(ctx: &Ctx) {
         strategy(prop, thorough),
         eval,
     );
+}
+
+
+// ------------------------------------------------------------------------------------------
+// C19, writer side: a KEEP_ALL writer refuses writes beyond its resource limits with OutOfResources
+// and stores nothing for them
+
+#[derive(Default, Clone, Debug, Serialize, Deserialize)]
+struct WLimObs {
+    setup_error: Option<String>,
+    /// (inst, seq, result: "Ok" | error name)
+    results: Vec<(u8, u32, String)>,
+    delivered: Vec<u32>,
+}
+
+async fn writer_limits_scenario(c: CacheCase) -> WLimObs {
+    use crate::exec::with_world;
+    use dust_dds::infrastructure::sample_info::{ANY_INSTANCE_STATE, ANY_SAMPLE_STATE, ANY_VIEW_STATE};
+    let mut o = WLimObs::default();
+    let wl = c.wlim.clone().unwrap();
+    let f = factory();
+    let pw = f.create_participant(0, QosKind::Default, NO_LISTENER, NO_STATUS).await.unwrap();
+    let tw = pw.create_topic::<KeyedData>("T", "KeyedData", QosKind::Default, NO_LISTENER, NO_STATUS).await.unwrap();
+    let pb = pw.create_publisher(QosKind::Default, NO_LISTENER, NO_STATUS).await.unwrap();
+    let lim = |v: Option<u8>| v.map(|x| Length::Limited(x as i32)).unwrap_or(Length::Unlimited);
+    let wq = DataWriterQos {
+        reliability: ReliabilityQosPolicy { kind: ReliabilityQosPolicyKind::Reliable, max_blocking_time: dk_ms(100) },
+        history: HistoryQosPolicy { kind: HistoryQosPolicyKind::KeepAll },
+        resource_limits: ResourceLimitsQosPolicy {
+            max_samples: lim(wl.max_samples),
+            max_instances: lim(wl.max_instances),
+            max_samples_per_instance: lim(wl.mspi),
+        },
+        ..Default::default()
+    };
+    let w = match pb.create_datawriter::<KeyedData>(&tw, QosKind::Specific(wq), NO_LISTENER, NO_STATUS).await {
+        Ok(w) => w,
+        Err(e) => {
+            o.setup_error = Some(format!("create_datawriter: {e:?}"));
+            return o;
+        }
+    };
+    let pr = f.create_participant(0, QosKind::Default, NO_LISTENER, NO_STATUS).await.unwrap();
+    let tr = pr.create_topic::<KeyedData>("T", "KeyedData", QosKind::Default, NO_LISTENER, NO_STATUS).await.unwrap();
+    let sb = pr.create_subscriber(QosKind::Default, NO_LISTENER, NO_STATUS).await.unwrap();
+    let r = sb
+        .create_datareader::<KeyedData>(
+            &tr,
+            QosKind::Specific(DataReaderQos {
+                reliability: ReliabilityQosPolicy { kind: ReliabilityQosPolicyKind::Reliable, max_blocking_time: dk_ms(100) },
+                history: HistoryQosPolicy { kind: HistoryQosPolicyKind::KeepAll },
+                ..Default::default()
+            }),
+            NO_LISTENER,
+            NO_STATUS,
+        )
+        .await
+        .unwrap();
+    if !wait_until(20_000, 10, || async { w.get_publication_matched_status().await.map(|s| s.current_count == 1).unwrap_or(false) }).await {
+        o.setup_error = Some("no match".into());
+        return o;
+    }
+    exec::sleep_ms(100).await;
+    if wl.partitioned {
+        with_world(|w| w.net.endpoints[1].connected = false);
+    }
+    let mut seq = 0u32;
+    for op in &c.ops {
+        if let Op::Write { inst, .. } = op {
+            seq += 1;
+            let res = crate::util::timeout(5_000, w.write(KeyedData { id: *inst, seq, blob: vec![1, 2, 3] }, None)).await;
+            let name = match res {
+                crate::util::Timed::Done(Ok(())) => "Ok".to_string(),
+                crate::util::Timed::Done(Err(e)) => format!("{e:?}").split('(').next().unwrap_or("").to_string(),
+                crate::util::Timed::TimedOut => "NeverReturned".to_string(),
+            };
+            o.results.push((*inst, seq, name));
+            if !wl.partitioned {
+                exec::sleep_ms(5).await;
+            }
+        }
+    }
+    with_world(|w| w.net.endpoints[1].connected = true);
+    let mut waited = 0;
+    let ok: Vec<u32> = o.results.iter().filter(|r| r.2 == "Ok").map(|r| r.1).collect();
+    loop {
+        if let Ok(samples) = r.take(10_000, ANY_SAMPLE_STATE, ANY_VIEW_STATE, ANY_INSTANCE_STATE).await {
+            for s in samples {
+                if let Some(d) = s.data {
+                    o.delivered.push(d.seq);
+                }
+            }
+        }
+        if (ok.iter().all(|s| o.delivered.contains(s)) && waited >= 600) || waited >= 10_000 {
+            break;
+        }
+        exec::sleep_ms(100).await;
+        waited += 100;
+    }
+    o
+}
+
+fn eval_writer_limits(case: &CacheCase) -> CaseResult {
+    let mut res = CaseResult::default();
+    let wl = case.wlim.clone().unwrap();
+    match exec::run(writer_limits_scenario(case.clone())) {
+        Ok(o) => {
+            if let Some(e) = &o.setup_error {
+                res.harness_error = Some(e.clone());
+            } else {
+                res.class("writer_side");
+                // model: nothing is acknowledged while the reader is partitioned, so every accepted sample stays held
+                let mut per: BTreeMap<u8, u32> = BTreeMap::new();
+                let mut total = 0u32;
+                let mut refused = false;
+                for (inst, seq, name) in &o.results {
+                    let new_instance = !per.contains_key(inst);
+                    let over_instances = new_instance && wl.max_instances.map(|m| per.len() as u32 >= m as u32).unwrap_or(false);
+                    let over_mspi = wl.mspi.map(|m| per.get(inst).copied().unwrap_or(0) >= m as u32).unwrap_or(false);
+                    let over_samples = wl.max_samples.map(|m| total >= m as u32).unwrap_or(false);
+                    let must_refuse = over_instances || over_mspi || over_samples;
+                    if name != "Ok" && name != "OutOfResources" {
+                        res.fail(format!("C19:writer:unexpected-result:{name}"), format!("write of seq {seq} returned {name} (limits {wl:?})"));
+                        break;
+                    }
+                    if wl.partitioned {
+                        if must_refuse && name == "Ok" {
+                            let which = if over_instances { "max_instances" } else if over_mspi { "max_samples_per_instance" } else { "max_samples" };
+                            res.fail(format!("C19:writer:accepted-beyond-{which}"), format!("write of seq {seq} (instance {inst}) returned Ok although the writer already holds {total} unacknowledged samples ({:?} per instance), limits {wl:?}", per));
+                            break;
+                        }
+                        if !must_refuse && name != "Ok" {
+                            res.fail("C19:writer:refused-within-limits".to_string(), format!("write of seq {seq} (instance {inst}) returned {name} although no limit is reached (holding {total}, {:?}), limits {wl:?}", per));
+                            break;
+                        }
+                    }
+                    if name == "Ok" {
+                        *per.entry(*inst).or_insert(0) += 1;
+                        total += 1;
+                    } else {
+                        refused = true;
+                        res.class("write_refused");
+                    }
+                }
+                if res.verdict.is_none() {
+                    let ok: Vec<u32> = o.results.iter().filter(|r| r.2 == "Ok").map(|r| r.1).collect();
+                    let missing: Vec<u32> = ok.iter().filter(|s| !o.delivered.contains(s)).copied().collect();
+                    let leaked: Vec<u32> = o.delivered.iter().filter(|s| !ok.contains(s)).copied().collect();
+                    if !leaked.is_empty() {
+                        res.fail("C19:writer:refused-sample-stored".to_string(), format!("writes of seqs {leaked:?} were refused but the samples were delivered"));
+                    } else if !missing.is_empty() {
+                        res.fail("C19:writer:accepted-sample-not-delivered".to_string(), format!("writes of seqs {missing:?} returned Ok but were never delivered"));
+                    }
+                }
+                res.nontrivial = refused;
+            }
+        }
+        Err(a) => apply_abort("C19", &mut res, a),
+    }
+    res.sim = sim_stats();
+    res
 }
